@@ -60,6 +60,7 @@ fn main() {
         "C10" => dispatch(&props::c10::P, &args),
         "C11" => dispatch(&props::c11::P, &args),
         "C15" => dispatch(&props::c15::P, &args),
+        "C16" => dispatch(&props::c16::P, &args),
         other => {
             eprintln!("unknown property {}", other);
             2
